@@ -14,7 +14,7 @@ from typing import Iterable, Optional
 from .flow import FunctionFlow
 from .model import dotted, norm
 
-TRANSPARENT_METHODS = {"as_array", "as_tensor", "tolist", "copy", "astype", "flatten", "ravel", "item", "numpy", "detach"}
+TRANSPARENT_METHODS = {"as_array", "as_tensor", "tolist", "copy", "astype", "flatten", "ravel", "item", "numpy", "detach", "values", "keys", "items"}
 TRANSPARENT_FUNCS = {"float", "cast", "AbstractArray", "array", "asarray", "list", "tuple", "bool"}
 FUNC_TAGS = {
     "any": "any", "all": "all", "abs": "abs", "absolute": "abs", "fabs": "abs", "max": "max", "amax": "max", "min": "min", "amin": "min",
@@ -147,7 +147,18 @@ class Abstractor:
             if nm in ("True", "False", "None"):
                 return AV(frozenset({f"const:{nm}"}), frozenset())
             if self.ctx.is_param(nm):
-                return AV(frozenset({nm}), frozenset())
+                base = AV(frozenset({nm}), frozenset())
+                rdefs = self.ctx.local_defs().get(nm)
+                if rdefs and nm not in self._busy:
+                    # a re-assigned parameter: its later values count too
+                    self._busy.add(nm)
+                    try:
+                        for kind, v in rdefs:
+                            if kind == "assign":
+                                base = base | self.av(v, _d + 1)
+                    finally:
+                        self._busy.discard(nm)
+                return base
             defs = self.ctx.local_defs().get(nm)
             if defs and nm not in self._busy:
                 self._busy.add(nm)
